@@ -55,6 +55,10 @@ def main():
         conn = socket.socket(socket.AF_UNIX, socket.SOCK_STREAM)
         conn.connect(sock_path)
 
+    if conn is not None:
+        # tell the controller which process the compiler is (for "the compiler alone is killed" executions)
+        conn.sendall(("%s !pid %d\n" % (proc_id, os.getpid())).encode())
+
     def point(ev):
         if conn is not None:
             conn.sendall(("%s %s\n" % (proc_id, ev)).encode())
